@@ -8,10 +8,13 @@ import (
 
 // GenEnv carries the element snapshot used by the generators.
 type GenEnv struct {
-	Proto   string
-	iana    [][]Elem // by type
-	ent     [][]Elem
-	ianaAll []Elem
+	Proto string
+	// NoEnterprise restricts field specifiers to IANA elements (for checks whose code under test runs in
+	// another process, where the harness's enterprise elements are not installed).
+	NoEnterprise bool
+	iana         [][]Elem // by type
+	ent          [][]Elem
+	ianaAll      []Elem
 }
 
 func NewGenEnv(proto string) *GenEnv {
@@ -31,7 +34,7 @@ var fieldTypesPool = []int{TUint8, TUint16, TUint32, TUint64, TInt8, TInt16, TIn
 // GenField draws one field specifier.
 func (e *GenEnv) GenField(t *rapid.T) Field {
 	var el Elem
-	useEnt := e.Proto == "ipfix" && rapid.IntRange(0, 3).Draw(t, "ent") == 0
+	useEnt := e.Proto == "ipfix" && !e.NoEnterprise && rapid.IntRange(0, 3).Draw(t, "ent") == 0
 	// pick by type first (so rare types are as likely as unsigned32), fall back to any IANA element
 	typ := rapid.SampledFrom(fieldTypesPool).Draw(t, "ftype")
 	pool := e.iana[typ]
